@@ -44,7 +44,7 @@ ASSUMPTIONS = [
 ]
 
 T.ALPHABETS['c01wide'] = dict(T.ALPHABETS['wide'])
-T.ALPHABETS['c01wide']['atoms'] = T.ALPHABETS['wide']['atoms'] + ['""', '"\\"q\\\\"', 'k#1']
+T.ALPHABETS['c01wide']['atoms'] = T.ALPHABETS['wide']['atoms'] + ['""', '"\\"q\\\\"', 'k#1', 'k~1,2,3']
 T.ALPHABETS['c01wide']['concepts'] = T.ALPHABETS['wide']['concepts'] + ['""~1', 'x#y']
 
 # comment lines for the fixed-point clause (multi-key lines, empty values, odd spacing)
